@@ -174,6 +174,16 @@ frecipe('derived/L2sq*v', ('rn', 'discr'), 'pl', [FUN + 'FunctionalRightVectorMu
     lambda ctx, sp: S.L2NormSquared(sp) * sp.element([2.0, -0.5][:sp.size]))
 frecipe('derived/L1*v', ('rn',), 'pl', [FUN + 'FunctionalRightVectorMult'], n=1)(
     lambda ctx, sp: S.L1Norm(sp) * sp.element([2.0, -0.5][:sp.size]))
+frecipe('derived/QuadraticForm*v', ('rn', 'arn'), 'pl', [FUN + 'FunctionalRightVectorMult'])(
+    lambda ctx, sp: S.QuadraticForm(
+        operator=odl.MatrixOperator(np.array([[2.0, 0.5], [0.5, 1.0]]), domain=sp, range=sp),
+        vector=sp.element([1.0, -2.0])) * sp.element([2.0, -0.5]))
+frecipe('derived/L2Norm*v', ('rn', 'discr'), 'sqrt', [FUN + 'FunctionalRightVectorMult'])(
+    lambda ctx, sp: S.L2Norm(sp) * sp.element([2.0, -0.5]))
+frecipe('derived/Rosenbrock*v', ('rn',), 'pl', [FUN + 'FunctionalRightVectorMult'])(
+    lambda ctx, sp: S.RosenbrockFunctional(sp) * ctx.element(sp, 't'))
+frecipe('derived/KL*v', ('rn',), 'trans', [FUN + 'FunctionalRightVectorMult'], pre=positive)(
+    lambda ctx, sp: S.KullbackLeibler(sp, prior=sp.element([1.0, 2.0])) * sp.element([2.0, 0.5]))
 frecipe('derived/L2sq∘M', ('rn', 'arn'), 'pl', [FUN + 'FunctionalComp'])(
     lambda ctx, sp: S.L2NormSquared(sp) * odl.MatrixOperator(np.array([[1.0, 2.0], [0.0, -1.0]]), domain=sp, range=sp))
 frecipe('derived/L1∘scaling', ('rn', 'discr'), 'pl', [FUN + 'FunctionalComp'], n=1)(
